@@ -436,6 +436,15 @@ func (s *Stream) rawFlushLocked() (err error) {
 }
 
 func (s *Stream) checkRecvFlush() (err error) {
+	// once the send side has ended (CloseSend, which flushes, or termination)
+	// nothing of this stream is left to flush. the writer is shared with the
+	// next stream on the connection, which may already be buffering its own
+	// frames if this stream is finished: they must neither be flushed from
+	// here nor make this receive fail with the reason the send side ended.
+	if s.sigs.send.IsSet() {
+		return nil
+	}
+
 	// a flush that fails with io.EOF means the send side has already been
 	// ended (remote error or cancel, local cancel). the stream is terminated
 	// in that state and the receive reports the actual reason, so it must not
